@@ -259,7 +259,7 @@ def evaluate(world, sources, variants, workdir, hashseeds=(), keep=False):
 
 def gen_world(seed, idx):
     rng = seeds.stream(seed, PROP, idx, "world")
-    w = W.gen_modgraph(rng, {"max_mods": 6, "min_mods": 2, "max_ents": 5})
+    w = W.gen_modgraph(rng, {"max_mods": 6, "min_mods": 2, "max_ents": 5, "ctor_generics": True})
     return w
 
 
